@@ -98,7 +98,7 @@ def cells(kind, dims, ids):
             n = seen.get(d, 0); seen[d] = n + 1
             # every labelled axis gets its own decimal block (ids < 1000): 1st taxa axis units, 2nd taxa axis / variants
             # thousands, traits millions, 3rd and 4th taxa axes (three-/four-way matrices) 1e9 and 1e12; all exactly representable
-            mult = {"taxa": (1.0, 1e3, 1e9, 1e12)[min(n, 3)], "vrnt": 1e3, "trait": 1e6}[d]
+            mult = {"taxa": (1.0, 1e3, 1e9, 1e12)[min(n, 3)], "vrnt": 1e3, "trait": (1e6, 1e9)[min(n, 1)]}[d]   # 2nd trait axis only with <= 2 taxa axes
             out = out + mult * g
     return out
 
